@@ -16,7 +16,10 @@ fn main() {
             "C02" => vh::c02::check(),
             "C03" => vh::c01::check("C03"),
             "C04" => vh::c04::check(),
+            "C07" => vh::c07::check("C07"),
+            "C08" => vh::c07::check("C08"),
             "C09" => vh::c09::check(),
+            "C10" => vh::c10::check(),
             _ => usage(),
         },
         "child" => {
@@ -25,6 +28,7 @@ fn main() {
                 "c02" => vh::c02::child(idx),
                 "c04" => vh::c04::child(idx),
                 "c09s" => vh::c09::child_s(idx),
+                "c10" => vh::c10::child(idx),
                 _ => usage(),
             }
             0
@@ -38,6 +42,8 @@ fn main() {
                 "c02" => vh::c02::replay(r),
                 "c04" => vh::c04::replay(r),
                 "c09h" | "c09s" => vh::c09::replay(r),
+                "c10" => vh::c10::replay(r),
+                "c07" => vh::c07::replay(r),
                 _ => usage(),
             }
         }
